@@ -16,6 +16,18 @@ CLAIMED = {
          "Theorems (props/C01.v): the sender is checks + draws (shuffle, ephemeral secret, payload key) + seal_core on a permutation of the recipients; for every plaintext/Write split, V1/V2, named/anonymous sender, pairwise distinct recipients, EVERY position and visibility, the holder of that key opens the message (stream and all-at-once, both shipped validators) to exactly the plaintext, sender key or anonymous flag, its own key and hidden flag, or another recipient's payload-key box of that very message opens under its shared key (concrete NaCl break); strangers get ErrNoDecryptionKey; streaming = one-shot sender. Campaign: emitted bytes and randomness consumption equal the extracted model's byte for byte (incl. k MiB +-1), every recipient and a stranger open the real output.",
          NOTE_COMMON + NOTE_CRYPTO + "Side condition: encoded header < 4 GiB (discharged for <= 40,000,000 recipients with <= 32-byte keys). Keys are harness keys built on package basic; armored entry points are covered by C11/C13 campaigns, not by these theorems.",
          "DESIGN.md section 5 C01"),
+ "C02": (AUTH,
+         "Theorem (props/C02.v): for EVERY input byte string, every shipped validator and sender-lookup policy, if an honest recipient's stream opens naming the honest non-anonymous sender, then either nothing was released and the end is not clean, or the released chunks are a prefix of the chunks of ONE message in the sender's honest history (any spec-following chunking, V1/V2) whose recipient list contains this recipient, clean end only after all of them, or the input itself carries - at the recipient's authenticator slot of a packet the receiver examines, extracted by a fixed function - a valid HMAC tag under the pairwise MAC key for a (header hash, index, payload hash) the sender never authenticated for this recipient, or a SHA-512 collision. The payload key's secrecy is never used (co-recipient forgeries are covered). Campaign: ~500 (quick) mutated/spliced messages and spec-aware insider forgeries built with the genuine payload key; model = /repo on key attribution, released bytes, error class; ground-truth prefix oracle.",
+         NOTE_COMMON + NOTE_CRYPTO + "Needs crypto_ok (ok_sb, ok_dh) to identify the recovered payload key with the sender's. The break disjunct names where in the input the forged tag sits; its infeasibility is assumed, not proved.",
+         "DESIGN.md section 5 C02"),
+ "C03": (RT,
+         "Theorems (props/C03.v): sender structure (checks, draws, core on a permutation of box+symmetric recipients); the holder of the box secret key at ANY position, and a holder of no box key whose resolver resolves ANY subset of identifiers containing one (each to its genuine key), recover exactly the plaintext and the signer key (none for anonymous), stream and all-at-once - unless another entry's identifier collides with the opener's HMAC-derived identifier (concrete witness); holders of no key get ErrNoDecryptionKey; streaming = one-shot. Campaign: bytes equal the model's (incl. 1 MiB +-1), every box recipient, every symmetric recipient with single and random-subset resolvers, and a stranger open the real output.",
+         NOTE_COMMON + NOTE_CRYPTO + "Side condition: encoded header < 4 GiB (discharged by C03_header_fits). A resolver returning a WRONG key for an earlier identifier makes the code fail with ErrDecryptionFailed; that is outside 'resolvable' and excluded by the hypothesis resolver_genuine.",
+         "DESIGN.md section 5 C03"),
+ "C04": (AUTH,
+         "Theorem (props/C04.v): for EVERY input and EVERY instance of the primitives with 64-byte hashes (nothing assumed about secretbox, so insiders who know the payload key are covered), if the open stream names signer pk and releases chunks then they are a prefix of the chunks of ONE message pk signcrypted under exactly the presented header, clean end only after all of them - or the input carries, inside an examined packet (fixed extractor), a signature valid under pk on a string pk never signed (attached/detached/signcryption domain separation proved), or a SHA-512 collision. Campaign: mutations as C02 plus insider forgeries (modified plaintext, flipped final flag, renumbered/duplicated chunks, zero signature, transplanted signatures under a new header).",
+         NOTE_COMMON + NOTE_CRYPTO + "Anonymous-sender messages promise only integrity against parties without the payload key; that clause is exercised by the campaign, not proved.",
+         "DESIGN.md section 5 C04"),
  "C05": (RT,
          "Theorems (props/C05.v): for every message and Write split, V1/V2, key and randomness stream, Sign's output verifies (stream and all-at-once, both validators) to exactly the message and signer, consuming exactly the 16 nonce bytes; a keyring not knowing the signer gets ErrNoSenderKey and no bytes; streaming = one-shot signer. Campaign: emitted bytes equal the model's byte for byte (incl. 1 MiB +-1), Verify/stream-verify (one-byte reader) round trip and unknown-signer checks on /repo.",
          NOTE_COMMON + NOTE_CRYPTO + "Armored forms are covered by the C11/C13 campaigns.",
@@ -32,6 +44,14 @@ CLAIMED = {
          "Machine-checked theorems over the Gallina model of encoding/basex: encodeBlock is fixed-width positional base conversion, decode(encode x)=x for every byte string, strict decoding accepts only canonical strings (non-minimal lengths, foreign characters and overflowing values rejected), skip characters are exactly deletable, length helper = encoder output length. The model is the extracted code the harness runs against the Go package on every run (all 1-byte blocks, all short strings, every length 0..4*blocklen+1, mutated encodings).",
          NOTE_COMMON + "Go float64/math.Log2 length formulas are not modelled; they are compared exhaustively on the domain the code evaluates them on. math/big is trusted. Streaming encoder/decoder: see C13.",
          "DESIGN.md section 5 C10"),
+ "C17": ("Coq proof (header gate lemmas by unfolding; cross-mode and version refusals as corollaries of the round-trip lemmas) + cross-feeding campaign over every producer/consumer/validator triple and lying-header forgeries",
+         "Theorems (props/C17.v): each receiving entry point succeeds only if the header decoded from the wire names format 'saltpack', carries a version the caller's validator accepts (signcryption: major 2) and the entry point's mode; the four mode values and the two versions are distinct; a genuine attached signature is refused by the detached verifier and vice versa, a genuine message is refused by the single-version validator of the other version; Sign/SignDetached/Seal with any version outside {1.0, 2.0} return ErrBadVersion (no bytes, no panic in the model). Campaign: all 7 producers x 4 consumers x validators; messages from the reference sender whose header lies about format/version/mode with all keys/MACs/signatures recomputed; every Version in {0..3}x{0..2} and odd values to every sender.",
+         NOTE_COMMON + NOTE_CRYPTO + "Cross-mode authenticity against forgers is carried by C02/C04/C06/C07 (mode and version are inside the hashed header; domain-separation strings).",
+         "DESIGN.md section 5 C17"),
+ "C18": ("Coq proof (randomness as an explicit stream: consumption lemmas, nonce injectivity) + pinned-randomness campaign with the reference receiver recovering the secrets, and a source fault at every offset",
+         "Theorems (props/C18.v): the signature header nonce is exactly the first 16 stream bytes and the next operation sees what follows; for Seal/SigncryptSeal the shuffle consumes a prefix, then the ephemeral secret and the payload key are the next two disjoint 32-byte segments and the remainder is handed on - so across any history secrets repeat only if the source repeats; within a message chunk nonces are pairwise distinct (encryption and signcryption) up to the 2^64-1 counter bound where the code returns ErrPacketOverflow; a stream too short at any draw makes every sender return ErrRand. Campaign: 60 (quick) repeated calls with identical arguments: ephemeral keys, payload keys (recovered by the reference receiver) and nonces pairwise distinct and equal to the drawn bytes; source failure at every offset for all four senders.",
+         NOTE_COMMON + "The quality of the OS randomness source is out of scope; crypto/rand.Reader is replaced by a counting reader in the campaign. basic.EphemeralKeyCreator's key generation (box.GenerateKey) is modelled as 'read 32 bytes'.",
+         "DESIGN.md section 5 C18"),
  "C19": ("Coq proof (explicit bijections for Lemire rejection sampling and Fisher-Yates) + differential correspondence on the verif-tag hooks",
          "Machine-checked theorems over the Gallina model of rand.go: the two-stage rejection test equals low < 2^32 mod n; (k,t) -> ceil((k*2^32+thresh)/n)+t is a bijection from [0,n) x [0,floor(2^32/n)) onto the accepted 32-bit draws with output k (exact uniformity for every n < 2^32); the shuffle is Fisher-Yates on the accepted draws, which is a bijection from draw sequences onto all arrangements (permutation, surjective, injective), whatever the caller's order. The extracted model is run against csprngUint32n/csprngShuffle (exported under -tags verif) on boundary source values and on every draw sequence for n<=6.",
          NOTE_COMMON + "Identity-hiding clause: checked on every sealed message by the C01/C03 campaigns' wire oracles (sender key and hidden/box recipients' keys absent from the bytes, visible recipients exactly once); secrecy of ciphertexts is NaCl's assumption.",
